@@ -78,14 +78,9 @@ def fn_name(fnj):
     if m and " for " not in m.group(1):
         return "%s::%s" % (short_ty(m.group(1)), m.group(2))
     st = fnj.get("self_ty")
-    inst = fnj.get("inst") or d
-    # trait methods: use trait path + self type
-    if st and ("::" in d) and (fnj.get("inst") and fnj["inst"] != d or d.startswith("std::ops::") or d.startswith("std::cmp::")
-                                or d.startswith("std::iter::") or d.startswith("std::convert::") or d.startswith("std::clone::")
-                                or d.startswith("std::str::FromStr") or d.startswith("std::string::ToString")
-                                or d.startswith("std::default::") or d.startswith("rust_decimal::MathematicalOps")
-                                or d.startswith("rust_decimal::prelude::") or d.startswith("num_traits::")):
-        return "<%s as %s>::%s" % (short_ty(st), short_path(d.rsplit("::", 1)[0]), d.rsplit("::", 1)[1])
+    tr = fnj.get("trait")
+    if tr and st:
+        return "<%s as %s>::%s" % (short_ty(st), short_path(tr), d.rsplit("::", 1)[1])
     d2 = re.sub(r"::<[^<>]*(?:<[^<>]*>[^<>]*)*>", "", d)
     return short_path(d2)
 
